@@ -515,14 +515,15 @@ def _is_default(fobj, v):
         d = fobj.column_type.default_value()
     except Exception:
         return v in (None, u"", b"")
-    cands = [d]
+    # what a reader returns for a document without a value is the column's default as the field translates it
+    # (column_reader(translate=True)) - the same whether or not the segment has a file for the column
     try:
-        cands.append(fobj.from_column_value(d))
+        cands = [fobj.from_column_value(d)]
     except Exception:
-        pass
+        cands = [d]
     for c in cands:
         if isinstance(c, float) and isinstance(v, float) and math.isnan(c) and math.isnan(v):
             return True
         if type(c) == type(v) and c == v:
             return True
-    return v is None
+    return False
